@@ -410,16 +410,101 @@ inductive ViewResult where
   | unmodelled
 deriving Repr, DecidableEq
 
-/-- `Request` + reading `resp.Body` to the end, over the responder's bytes `raw` -/
+/-- `bufio.Reader` (which `Request` puts in front of the stream) gives up with io.ErrNoProgress
+after this many consecutive reads that return no data and no error -/
+def maxConsecutiveEmptyReads : Nat := 100
+
+/-- `Request` + reading `resp.Body` to the end, over the responder's bytes `raw`.
+The stream reader returns (0, nil) once per empty data record (see `SR.read`); responder output
+with 100 or more of them is outside the model (bufio may report ErrNoProgress). A conforming
+responder sends exactly one: the stdout terminator. -/
 def clientView (raw : Bytes) : R ViewResult :=
   match demux raw with
   | .error e => .error e
   | .ok d =>
+    if (d.out.filter (·.isEmpty)).length ≥ maxConsecutiveEmptyReads then .ok .unmodelled else
     match parseResponse d.out.flatten with
     | .unmodelled => .ok .unmodelled
     | .statusError => .ok .statusError
     | .resp r =>
       .ok (.view { status := r.status, statusText := r.statusText, headers := sortHeaders r.headers,
                    body := r.body, stderr := d.err, fin := d.fin })
+
+/-! ### `streamReader.Read`, call by call (the io.Reader contract)
+
+`demux` above says what all the reads together deliver.  This is the same reader one `Read(p)` at a
+time, so that the number of bytes each call returns is visible: a caller such as bufio.Reader
+tolerates only a bounded number of consecutive calls that return (0, nil). -/
+
+/-- `streamReader` + the connection: bytes not yet read from `rwc`, `w.buf`, `c.stderr` -/
+structure SR where
+  inp    : Bytes
+  buf    : Bytes := []
+  stderr : Bytes := []
+deriving Repr, DecidableEq
+
+/-- what one `Read` reports: the bytes copied into `p`, the error, and the records it took off the
+connection -/
+structure ReadOut where
+  data     : Bytes
+  err      : Option ReadErr
+  consumed : List Rec
+deriving Repr, DecidableEq
+
+/-- the `for { rec.read … }` loop entered when `w.buf` is empty: stderr records are diverted and
+the loop goes on; any other record ends it -/
+def SR.fill : Nat → SR → List Rec → R (SR × Option ReadErr × List Rec)
+  | 0, _, _ => .error .fuel
+  | f + 1, s, acc =>
+    match readRecord s.inp with
+    | .error e => .error e
+    | .ok (.error e, rest) => .ok ({ s with inp := rest }, some e, acc)
+    | .ok (.ok rec, rest) =>
+      if rec.typ = typeStderr then
+        SR.fill f { s with inp := rest, stderr := s.stderr ++ rec.content } (acc ++ [rec])
+      else .ok ({ s with inp := rest, buf := rec.content }, none, acc ++ [rec])
+
+/-- `n = min(len(p), len(w.buf)); copy; w.buf = w.buf[n:]` -/
+def SR.deliver (s : SR) (plen : Nat) (consumed : List Rec) : SR × ReadOut :=
+  let n := min plen s.buf.length
+  ({ s with buf := s.buf.drop n }, { data := s.buf.take n, err := none, consumed := consumed })
+
+/-- one `Read(p)` with `len(p) = plen` -/
+def SR.read (s : SR) (plen : Nat) : R (SR × ReadOut) :=
+  if plen = 0 then .ok (s, { data := [], err := none, consumed := [] })
+  else if s.buf.length ≠ 0 then .ok (s.deliver plen [])
+  else
+    match SR.fill (s.inp.length + 1) s [] with
+    | .error e => .error e
+    | .ok (s', some e, c) => .ok (s', { data := [], err := some e, consumed := c })
+    | .ok (s', none, c) => .ok (s'.deliver plen c)
+
+/-- a whole sequence of `Read`s with the same buffer size until one reports an error -/
+structure Trace where
+  zero   : Nat := 0        -- calls that returned (0, nil)
+  empties : Nat := 0       -- empty data records (type other than stderr) taken off the connection
+  out    : Bytes := []
+  stderr : Bytes := []
+  fin    : ReadErr := .eof
+deriving Repr, DecidableEq
+
+def isEmptyData (r : Rec) : Bool := r.typ != typeStderr && r.content.isEmpty
+
+def SR.readAll (plen : Nat) : Nat → SR → Trace → R Trace
+  | 0, _, _ => .error .fuel
+  | f + 1, s, t =>
+    match s.read plen with
+    | .error e => .error e
+    | .ok (s', o) =>
+      let t := { t with empties := t.empties + (o.consumed.filter isEmptyData).length }
+      match o.err with
+      | some e => .ok { t with stderr := s'.stderr, fin := e }
+      | none =>
+        SR.readAll plen f s'
+          { t with zero := t.zero + (if o.data.isEmpty then 1 else 0), out := t.out ++ o.data }
+
+/-- reading the responder's bytes `raw` to the end through `Read` calls with `len(p) = plen > 0` -/
+def readTrace (raw : Bytes) (plen : Nat) : R Trace :=
+  SR.readAll plen (2 * raw.length + 2) { inp := raw } {}
 
 end Casket.FCGI
